@@ -118,3 +118,77 @@ Proof.
       specialize (Hin 0). rewrite Heff in Hin. apply Hin. apply idxs_in. simpl. apply Nat.lt_0_succ.
     + specialize (Hun op Hi). rewrite He, Hdb in Hun. exact Hun.
 Qed.
+
+(* ---------------------------------------------------------------- disconnect *)
+(* UnspentIndex.DisconnectBlock: every value it puts into its local map is
+   non-empty (it always appends the restored index), so the write-back never
+   deletes; the only failing step is the direct delete of a block
+   transaction's own entry when that entry does not exist. *)
+Definition vals_ne (l : ulocal) : Prop := forall k v, In (k, v) l -> v <> [].
+
+Lemma alookup_in {A} (l : list (N * A)) k v : alookup N.eqb l k = Some v -> exists k', In (k', v) l.
+Proof.
+  induction l as [|[a x] r IH]; simpl; [discriminate|].
+  destruct (a =? k).
+  - intros H. inversion H; subst. exists a. now left.
+  - intros H. destruct (IH H) as [k' Hk']. exists k'. now right.
+Qed.
+
+Lemma aset_vals (l : ulocal) k0 v0 : vals_ne l -> v0 <> [] -> vals_ne (aset N.eqb l k0 v0).
+Proof.
+  intros Hl Hv. induction l as [|[a x] r IH]; simpl.
+  - intros k v [H|[]]. inversion H; subst. exact Hv.
+  - assert (Hr : vals_ne r) by (intros k v Hin; apply (Hl k v); now right).
+    destruct (a =? k0).
+    + intros k v [H|H]; [inversion H; subst; exact Hv | apply (Hl k v); now right].
+    + intros k v [H|H]; [apply (Hl k v); now left | exact (IH Hr k v H)].
+Qed.
+
+Lemma snoc_ne {A} (l : list A) x : l ++ [x] <> [].
+Proof. destruct l; discriminate. Qed.
+
+Lemma dins_step_vals db1 l op : vals_ne l -> vals_ne (dins_step db1 l op).
+Proof.
+  intros Hl. unfold dins_step. apply aset_vals; [|apply snoc_ne].
+  destruct (alookup N.eqb l (fst op)); [exact Hl|].
+  destruct (db1 (fst op)) eqn:E; [exact Hl|]. apply aset_vals; [exact Hl|discriminate].
+Qed.
+
+Lemma dins_fold_vals db1 ins : forall l, vals_ne l -> vals_ne (fold_left (dins_step db1) ins l).
+Proof. induction ins as [|op r IH]; intros l H; simpl; [exact H|]. apply IH. now apply dins_step_vals. Qed.
+
+Lemma dis_fold_ok : forall txs db loc,
+  NoDup (ids txs) -> (forall t, In t txs -> t_outs t <> [] -> db (t_id t) <> []) ->
+  NoDup (map fst loc) -> vals_ne loc ->
+  exists db' loc', fold_left unspent_disconnect_tx txs (Ok (db, loc)) = Ok (db', loc') /\
+                   NoDup (map fst loc') /\ vals_ne loc'.
+Proof.
+  induction txs as [|t r IH]; intros db loc Hnd Hdb Hk Hv.
+  - exists db, loc. repeat split; assumption.
+  - cbn [fold_left]. rewrite dis_tx_step. simpl in Hnd. inversion Hnd as [|? ? Hnotin Hnd']; subst.
+    assert (Hdel : exists db1, dis_del db t = Ok db1 /\
+              (forall t', In t' r -> t_outs t' <> [] -> db1 (t_id t') <> [])).
+    { unfold dis_del. destruct (t_outs t) as [|o os] eqn:Eo.
+      - exists db. split; [reflexivity|]. intros t' Ht'. apply Hdb. now right.
+      - assert (Hne : db (t_id t) <> []) by (apply Hdb; [now left | rewrite Eo; discriminate]).
+        destruct (db (t_id t)) eqn:Ed; [congruence|].
+        eexists. split; [reflexivity|]. intros t' Ht' Ho'. rewrite upd_other.
+        + apply Hdb; [now right | exact Ho'].
+        + intro E. apply Hnotin. rewrite <- E. unfold ids. now apply in_map. }
+    destruct Hdel as [db1 [-> Hdb1]].
+    apply IH; [exact Hnd' | exact Hdb1 | |].
+    + destruct (t_cb t); [exact Hk | now apply dins_fold_keys].
+    + destruct (t_cb t); [exact Hv | now apply dins_fold_vals].
+Qed.
+
+Theorem unspent_disconnect_ok db b :
+  NoDup (ids (b_txs b)) -> (forall t, In t (b_txs b) -> t_outs t <> [] -> db (t_id t) <> []) ->
+  exists m, unspent_disconnect db b = Ok m.
+Proof.
+  intros Hnd Hdb. unfold unspent_disconnect.
+  destruct (dis_fold_ok (b_txs b) db [] Hnd Hdb) as [db' [loc' [E [Hk Hv]]]].
+  - constructor.
+  - intros k v [].
+  - rewrite E. cbn [bind]. apply writeback_ok; [exact Hk|].
+    intros k Hl. exfalso. destruct (alookup_in _ _ _ Hl) as [k' Hin]. exact (Hv k' [] Hin eq_refl).
+Qed.
